@@ -89,6 +89,10 @@ func init() {
 			cfg.SurplusPct = 30 // more counted links than the threshold: ALL of them have to agree
 			cfg.EmptyLastPct = 20
 			cfg.UncleanNamesPct = 20
+			if rng.Chance(25) {
+				cfg.Depth = 1
+				cfg.TwinSubPct = 70
+			}
 			cfg.OddSummaryPct = 25
 			if rng.Chance(40) {
 				cfg.Inspections = []string{"noop"}
@@ -112,6 +116,7 @@ func init() {
 			cfg.SubExpiredPct = 15
 			cfg.SubFlattenPct = 12
 			cfg.SameNamePct = 50
+			cfg.TwinSubPct = 60
 			cfg.EmptyLastPct = 30
 			cfg.EmptyLastSub = true
 			if rng.Chance(40) {
@@ -121,7 +126,7 @@ func init() {
 			cfg.SubInspPct = 30
 			cfg.Differ = rng.Chance(15)
 			return cfg
-		}, "two- and three-level nestings: the evidence of one functionary per step may be a sublayout with its own link directory; defects (tampered/foreign/forged/garbage/corrupt links, one link too few, disagreeing links, rule violations) land at any level (incl. an expired or undated sublayout under a valid root, a sublayout whose last step reports no products, a sublayout whose directory is missing while its links lie in the parent's directory, a valid sublayout with its directory signed by a key the layout defines but does not list for that step, sublayouts with inspections of their own, three-level nestings in which the delegating step of the middle level has the name and the functionary of the step that delegated to it), also in a sublayout of a step that has more honest evidence than its threshold requires; parent rules strict or lenient; compared: verdict and summary. Class = (depth features, verdict).")
+		}, "two- and three-level nestings: the evidence of one functionary per step may be a sublayout with its own link directory; defects (tampered/foreign/forged/garbage/corrupt links, one link too few, disagreeing links, rule violations) land at any level (incl. an expired or undated sublayout under a valid root, a sublayout whose last step reports no products, a sublayout whose directory is missing while its links lie in the parent's directory, a valid sublayout with its directory signed by a key the layout defines but does not list for that step, sublayouts with inspections of their own, a second functionary signing the very same sublayout with a link directory of its own (equal, emptied, missing, one link short), three-level nestings in which the delegating step of the middle level has the name and the functionary of the step that delegated to it), also in a sublayout of a step that has more honest evidence than its threshold requires; parent rules strict or lenient; compared: verdict and summary. Class = (depth features, verdict).")
 	}
 	props["C09"] = func(r *Runner, tier string, rng *Rng) {
 		kinds := []string{"noop", "create", "modify", "delete", "exit", "create-exit", "signal", "missing", "empty", "noop", "create", "noop"}
@@ -134,6 +139,7 @@ func init() {
 			}
 			cfg.DirEdit = rng.Pick([]string{"", "", "add", "remove", "modify", "add-hidden", "add-hidden"})
 			cfg.AltAlgPct = 25
+			cfg.CleanSteps = rng.Chance(70)
 			cfg.RequirePct = 30
 			cfg.StepRuleBreakPct = 12
 			cfg.InspNameClashPct = 10
@@ -145,8 +151,21 @@ func init() {
 				cfg.ExtraPerStep = 1
 				cfg.Thresholds = []int{1, 2}
 			}
+			if rng.Chance(30) {
+				// FOCUS chains: everything up to the inspections is in order and the directory is what the
+				// last step left; ONE inspection whose command changes (or leaves) the files, and whose
+				// rules before AND after the command compare the directory with the last step's products:
+				// the verdict is decided by what the command did, nothing else
+				fc := baseCfg(rng, "C09")
+				fc.Entry, fc.RunDirState = cfg.Entry, "ok"
+				fc.RuleStyle = 1
+				fc.CleanSteps = true
+				fc.ProdMatchedPct = 100
+				fc.Inspections = []string{rng.Pick([]string{"modify", "modify", "modify", "create", "noop", "delete"})}
+				return fc
+			}
 			return cfg
-		}, "0-3 inspections from a catalogue of real shell commands (no-op, create/modify/delete a file, exit 1..255, effect then exit, killed by signal, missing executable, empty argv), final product directory equal to the last step's products or with one file added (also below a .git directory, a dot file, a backup file) / removed / modified, the last step's products recorded under sha512 only in 25% of the cases (nothing comparable = nothing equal), with and without an explicit run directory (incl. missing / empty); inspection rules match the directory against the last step's products, 30% carry a REQUIRE (first, or after ALLOW *); 12% of the chains have a step whose product rules fail (no inspection may run then), 10% an inspection named like a step; compared: verdict, summary, the list of commands that actually ran (marker file), the files present afterwards. Class = (inspection kinds, directory edit, run-dir state, verdict).")
+		}, "0-3 inspections from a catalogue of real shell commands (no-op, create/modify/delete a file, exit 1..255, effect then exit, killed by signal, missing executable, empty argv), final product directory equal to the last step's products or with one file added (also below a .git directory, a dot file, a backup file) / removed / modified, the last step's products recorded under sha512 only in 25% of the cases (nothing comparable = nothing equal), with and without an explicit run directory (incl. missing / empty); inspection rules match the directory against the last step's products, 30% carry a REQUIRE (first, or after ALLOW *); 30% are focus chains (flawless up to the inspection, one inspection whose rules before and after the command match the directory against the last step's products, opened by a rule that consumes nothing: the command alone decides); 12% of the chains have a step whose product rules fail (no inspection may run then), 10% an inspection named like a step; compared: verdict, summary, the list of commands that actually ran (marker file), the files present afterwards. Class = (inspection kinds, directory edit, run-dir state, verdict).")
 	}
 }
 
